@@ -98,8 +98,13 @@ other("C01", "the transition tables of PandoraMachine (check and run phases) are
       "against the documented machine (@tables: every state/trigger pair, re-read from the class body on every run); 'each step "
       "takes effect on the left data and, when a validation step is present, symmetrically on the right data': every <step>_run "
       "callback is executed symbolically with the step operations uninterpreted and its effects are shown invariant under the "
-      "exchange of the left and right records / absent on the right records (the glue contracts of C08); acceptance and "
-      "execution of whole pipelines through the transitions library, machine reset:")
+      "exchange of the left and right records / absent on the right records (the glue contracts of C08); PandoraMachine.check_conf "
+      "(trace contract, the loop over the steps summarised by one generic iteration): a first-round check starts from an EMPTY "
+      "checked pipeline -- every history of checks on one machine --, the checking transitions are installed before and removed "
+      "after the steps, every step of the user's pipeline is triggered in the pipeline's order with the pipeline section and its "
+      "own key (a suffixed key fires the trigger of its head), the machine returns to 'begin', a requested right map adds exactly "
+      "one second round with the images exchanged and the records point at (left, right) again afterwards; the behaviour of the "
+      "transitions library itself (which trigger is legal in which state) and the execution of whole pipelines:")
 other("C02", "point_interval (the column ranges of the two images that a disparity puts in correspondence: in range, equal length, "
       "offset by the disparity, empty when the disparity exceeds the width) and popcount32b (Hamming weight of a 32-bit word, "
       "bit-vector proof) are proved for all inputs; for sad / ssd the two halves of the measure are proved separately: ad_cost / "
